@@ -288,6 +288,14 @@ def run(ses, rep):
     flagged += lib_verification(ses, rep)
     flagged += terminators(ses, rep, funcs)
     flagged += early_returns(ses, rep, funcs)
+    aborts = loop_exits_join(ses, rep, funcs)
+    if aborts:
+        v, rec = replay_abort()
+        for oid, what, kind in aborts:
+            if v:
+                rep.add(oid, rep.violation({"obligation": "loop-exit-without-join"}, {"what": what, "observed": v, "scenario": "abort-mid-run", "run": rec}), f"{what}; {v}")
+            else:
+                rep.add(oid, "inconclusive", f"{what}: 40 runs of the abort scenario left the earlier file complete every time")
     # "the exit status is 2": one step of the output thread for a failing file, from any status (shared with C13)
     from . import c13
     st_flags = [f for f in c13.status_step(ses, rep, funcs) if "/Err/" in f[0]]
@@ -360,6 +368,95 @@ def early_returns(ses, rep, funcs):
     if n < 4:
         raise Inconclusive(f"format(): only {n} `?` sites recognised")
     return bad
+
+
+def cfg_succ(fn, unwind=False):
+    succ = {}
+    for bb, sts in fn.blocks.items():
+        t = sts[-1]
+        out = []
+        if t[0] == "goto":
+            out = [t[1]]
+        elif t[0] == "switch":
+            out = [x[1] for x in t[2]]
+        elif t[0] == "call":
+            out = [v for k, v in t[4].items() if k == "return" or unwind]
+        elif t[0] == "drop":
+            out = [v for k, v in t[2].items() if k == "return" or unwind]
+        succ[bb] = out
+    return succ
+
+
+def loop_exits_join(ses, rep, funcs):
+    """the process exits right after format() returns (main -> process::exit): a return out of the walker loop - after jobs may have been
+    handed to the pool - must pass pool.join(), or a worker is cut off between fs::write's truncate and its write.
+    Decided on the CFG of format(): every non-unwind path from inside the walker loop to `return` goes through ThreadPool::join."""
+    bad = []
+    cands = [f for f in funcs.get("format", []) if f.kind == "fn"]
+    if len(cands) != 1:
+        raise Inconclusive("format(): not found")
+    fn = cands[0]
+    succ = cfg_succ(fn)
+    head = [bb for bb, sts in fn.blocks.items() for s_ in sts if s_[0] == "call" and canon(s_[2]).endswith("Walk as Iterator>::next")]
+    joins = {bb for bb, sts in fn.blocks.items() for s_ in sts if s_[0] == "call" and canon(s_[2]).endswith("ThreadPool::join")}
+    execs = {bb for bb, sts in fn.blocks.items() for s_ in sts if s_[0] == "call" and canon(s_[2]).endswith("ThreadPool::execute")}
+    if len(head) != 1 or not joins or not execs:
+        raise Inconclusive(f"format(): walker loop / pool.join / pool.execute not found ({len(head)}, {len(joins)}, {len(execs)})")
+
+    def reach(src, avoid=()):
+        seen, todo = set(), [src]
+        while todo:
+            b = todo.pop()
+            if b in seen or b in avoid:
+                continue
+            seen.add(b)
+            todo += succ.get(b, [])
+        return seen
+    fwd = reach(head[0])
+    loop = {b for b in fwd if head[0] in reach(b)}
+    n = 0
+    for b in sorted(loop, key=lambda x: int(x[2:])):
+        for c in succ.get(b, []):
+            if c in loop:
+                continue
+            n += 1
+            r_ = reach(c, avoid=joins)
+            rets = [x for x in r_ if fn.blocks[x][-1][0] == "return"]
+            why = ""
+            if rets:
+                calls = [canon(s_[2]).split("::")[-1] for x in [b] for s_ in fn.blocks[x] if s_[0] == "call"]
+                why = f"exit {b}->{c}" + (f" after {calls[-1]}" if calls else "")
+            r, m = ses.obligation(f"loop-exit/format/{b}->{c}/passes-pool.join", [], z3.BoolVal(bool(rets)),
+                                  "every way out of the walker loop waits for the jobs already handed to the pool")
+            if r == "sat":
+                bad.append((f"loop-exit/format/{b}->{c}", f"format() can return from inside the walker loop without pool.join() ({why}): the process exits while a worker "
+                            "may be between truncating and writing a file", "abort"))
+    rep.bounds["walker_loop_blocks"] = len(loop)
+    rep.bounds["walker_loop_exits"] = n
+    if n < 1:
+        raise Inconclusive("format(): the walker loop has no exit edge")
+    return bad
+
+
+def replay_abort(runs=40):
+    """a configuration error met in the middle of the walk ends the run: files handed to the pool before must still be complete"""
+    binp = common.native_build("default")
+    body = "local  z = 1\n"
+    want = None
+    states = {}
+    for i in range(runs):
+        r = clireplay.run_cli(binp, {"a/x.lua": body, "b/stylua.toml": "column_width = 'oops'\n", "b/y.lua": clireplay.UNFORMATTED}, ["--num-threads", "4", "a", "b"])
+        if want is None:
+            want = clireplay.run_cli(binp, {"a/x.lua": body}, ["a"])["after"]["a/x.lua"][0]
+        got = r["after"].get("a/x.lua", (b"",))[0]
+        st_ = "formatted" if got == want else "untouched" if got == body.encode() else f"partial ({len(got)} of {len(want)} bytes)"
+        states[st_] = states.get(st_, 0) + 1
+        if st_.startswith("partial"):
+            return (f"`stylua a b` with a broken b/stylua.toml: a/x.lua was left {st_} - neither its original bytes nor its complete formatted text "
+                    f"(run {i + 1}; exit status {r['rc']})"), clireplay.describe(r)
+    if len(states) > 1:
+        return f"`stylua a b` with a broken b/stylua.toml: a/x.lua ends up {states} over {runs} identical runs", {"states": states}
+    return None, {}
 
 
 def terminators(ses, rep, funcs):
